@@ -22,10 +22,18 @@ type Case struct {
 	Ctx    string `json:"ctx"`
 	Req    string `json:"req"`               // small | large (1 MiB request the plugin never reads)
 	BigMiB int    `json:"big_mib,omitempty"` // size of the oversized streams (65 or 512)
+	// overlap families: Other is a second plugin call that runs inside the Hook-th log call of this one
+	// (1..3) or after it returned (4)
+	Other *Case `json:"other,omitempty"`
+	Hook  int   `json:"hook,omitempty"`
 }
 
 func (c Case) key() string {
-	return strings.Join([]string{c.Cmd, c.Exit, c.Stdout, c.Stderr, c.Timing, c.Ctx, c.Req, itoa(c.BigMiB)}, "|")
+	k := strings.Join([]string{c.Cmd, c.Exit, c.Stdout, c.Stderr, c.Timing, c.Ctx, c.Req, itoa(c.BigMiB)}, "|")
+	if c.Other != nil {
+		k += "||hook=" + itoa(c.Hook) + "||" + c.Other.key()
+	}
+	return k
 }
 
 func itoa(i int) string {
@@ -62,9 +70,11 @@ type soKind struct {
 	Label    string
 	Field    string // invalid-metadata: which clause is broken
 	MetaOnly bool
-	Thorough bool // only in the thorough alphabet
-	Pad      bool // followed by BigMiB of blanks
-	Garbage  bool // BigMiB of 'x' instead of text
+	Thorough bool     // only in the thorough alphabet
+	PairOnly bool     // only used by the overlap families (not a member of the single-call product)
+	Pad      bool     // followed by BigMiB of blanks
+	Garbage  bool     // BigMiB of 'x' instead of text
+	Versions []string // honest metadata kinds: the announced contract versions (hand-written expectation)
 	Text     func(cmd string) string
 }
 
@@ -109,6 +119,24 @@ var wrongTypeReply = map[string]string{
 	"verify-signature":    `{"verificationResults":[],"processedAttributes":[]}`,
 }
 
+// a second honest reply per command, of EXACTLY the same length as the first but different in the values a caller
+// looks at, and a third, longer one: overlapping calls must each get their own
+var honestReplyB = map[string]string{
+	"get-plugin-metadata": metaJSON(map[string]string{"description": `"SCRIPTED PLUGIN"`, "version": `"2.3.4"`, "url": `"https://example.org/C17"`, "capabilities": `["SIGNATURE_GENERATOR.ENV"]`}),
+	"describe-key":        `{"keyId":"k2","keySpec":"RSA-3072"}`,
+	"generate-signature":  `{"keyId":"k2","signature":"U0lH","signingAlgorithm":"RSASSA-PSS-SHA-384","certificateChain":["Q0VSVA=="]}`,
+	"generate-envelope":   `{"signatureEnvelope":"RU5W","signatureEnvelopeType":"application/cose+json","annotations":{"c":"d"}}`,
+	"verify-signature":    `{"verificationResults":{"SIGNATURE_VERIFIER.TRUSTED_IDENTITY":{"success":true}},"processedAttributes":["io.cncf.notary.y"]}`,
+}
+
+var honestReplyLong = map[string]string{
+	"get-plugin-metadata": metaJSON(map[string]string{"description": `"a third, rather longer description of the scripted plugin"`, "version": `"10.20.30"`}),
+	"describe-key":        `{"keyId":"the-third-and-longest-key-identifier","keySpec":"EC-521"}`,
+	"generate-signature":  `{"keyId":"the-third-and-longest-key-identifier","signature":"bG9uZ2VyIHNpZ25hdHVyZQ==","signingAlgorithm":"ECDSA-SHA-512","certificateChain":["bGVhZg==","cm9vdA=="]}`,
+	"generate-envelope":   `{"signatureEnvelope":"bG9uZ2VyIGVudmVsb3Bl","signatureEnvelopeType":"application/cose","annotations":{"third":"reply","x":"y"}}`,
+	"verify-signature":    `{"verificationResults":{"SIGNATURE_VERIFIER.TRUSTED_IDENTITY":{"success":false,"reason":"third reply"},"SIGNATURE_VERIFIER.REVOCATION_CHECK":{"success":true}},"processedAttributes":[]}`,
+}
+
 func honest(cmd string) string {
 	if cmd == "get-plugin-metadata" {
 		return metaJSON(nil)
@@ -135,6 +163,9 @@ func stdoutKinds(thorough bool) []soKind {
 		{Name: "valid-then-garbage", Label: soUndecodable, Text: func(c string) string { return honest(c) + "}xyz" }},
 		{Name: "truncated", Label: soUndecodable, Thorough: true, Text: func(c string) string { h := honest(c); return h[:len(h)-1] }},
 		{Name: "json-string", Label: soUndecodable, Thorough: true, Text: constText(`"ok"`)},
+		{Name: "valid-b", Label: soHonest, PairOnly: true, Text: func(c string) string { return honestReplyB[c] }},
+		{Name: "valid-long", Label: soHonest, PairOnly: true, Text: func(c string) string { return honestReplyLong[c] }},
+		{Name: "hashes-of-the-length-of-valid", Label: soUndecodable, PairOnly: true, Text: func(c string) string { return strings.Repeat("#", len(honest(c))) }},
 		{Name: "valid-plus-oversize-blanks", Label: soOversize, Pad: true, Text: honest},
 		{Name: "oversize-garbage", Label: soOversize, Garbage: true, Text: constText("")},
 	}
@@ -167,11 +198,42 @@ func stdoutKinds(thorough bool) []soKind {
 			Text: func(string) string {
 				return metaJSON(map[string]string{"supportedContractVersions": `["0.9","1.1","2.0"]`})
 			}},
-		soKind{Name: "meta-multi-version", Label: soHonest, MetaOnly: true,
+		soKind{Name: "meta-multi-version", Label: soHonest, MetaOnly: true, Versions: []string{"0.9", "1.0", "2.0"},
 			Text: func(string) string {
 				return metaJSON(map[string]string{"supportedContractVersions": `["0.9","1.0","2.0"]`})
 			}},
 	)
+	// announced contract versions, hand-labelled: the host speaks exactly "1.0"; a list is supported iff that very
+	// string is a member (any position); near misses are not "a supported contract version"
+	for _, v := range []struct {
+		raw       string
+		vers      []string
+		supported bool
+	}{
+		{`["1.1"]`, nil, false},
+		{`["1.0","2.0"]`, []string{"1.0", "2.0"}, true},
+		{`["2.0","1.0"]`, []string{"2.0", "1.0"}, true},
+		{`["1"]`, nil, false},
+		{`["1.0.0"]`, nil, false},
+		{`["01.0"]`, nil, false},
+		{`[" 1.0"]`, nil, false},
+		{`["1.10"]`, nil, false},
+		{`["1.1","1.2"]`, nil, false},
+		{`[]`, nil, false},
+	} {
+		v := v
+		k := soKind{Name: "meta-versions:" + v.raw, MetaOnly: true, Versions: v.vers,
+			Text: func(string) string { return metaJSON(map[string]string{"supportedContractVersions": v.raw}) }}
+		if v.supported {
+			k.Label = soHonest
+		} else {
+			k.Label, k.Field = soInvalidMeta, "unsupported-contract-version:"+strings.ReplaceAll(strings.Trim(v.raw, "[]"), `"`, "")
+			if v.raw == "[]" {
+				k.Field = "supportedContractVersions"
+			}
+		}
+		ks = append(ks, k)
+	}
 	var out []soKind
 	for _, k := range ks {
 		if k.Thorough && !thorough {
